@@ -1,12 +1,264 @@
 import IpaVerif.Model.Util
-/-! Line-protocol handlers for property C10 (model side). Import-free. -/
+import IpaVerif.Model.ReportWire
+/-! Line-protocol handlers for property C10 (model side). Import-free.
+
+Request grammar: see `harness/c10.rs`. The HPKE layer is replaced by the *ideal AEAD given by the log*
+of the request (everything that was ever sealed): `open` succeeds exactly on logged tuples. -/
 namespace IpaVerif.Driver.C10
-open IpaVerif.Util
+open IpaVerif.Util IpaVerif.ReportWire IpaVerif.Generated
+
+/-- one sealed item: base key, HPKE info, plaintext, encapsulated key, ciphertext‖tag -/
+structure Entry where
+  k : Nat
+  info : Bytes
+  plain : Bytes
+  enc : Bytes
+  ct : Bytes
+
+def parseEntry (s : String) : Option Entry :=
+  match s.splitOn ":" with
+  | [k, i, p, e, c] => do
+      pure { k := ← k.toNat?, info := ← parseHexBytes i, plain := ← parseHexBytes p,
+             enc := ← parseHexBytes e, ct := ← parseHexBytes c }
+  | _ => none
+
+def parseLog (s : String) : Option (List Entry) :=
+  if s = "-" then some [] else (s.splitOn ",").mapM parseEntry
+
+/-- The ideal AEAD whose sealing oracle produced exactly `log`. -/
+def tableAEAD (log : List Entry) : AEAD Nat where
+  open' k enc ct info :=
+    (log.find? (fun e => e.k == k && e.enc == enc && e.ct == ct && e.info == info)).map (·.plain)
+
+/-- registry: key id = position in the list of base keys -/
+def parseReg (s : String) : Option (Nat → Option Nat) := do
+  let l ← parseNatList s
+  pure (fun kid => l[kid]?)
+
+def bitsOf (name : String) : Option Nat := (Report.baBits.find? (·.1 == "BA" ++ name)).map (·.2)
+
+def parseTy (s : String) : Option Layout :=
+  match s.splitOn "_" with
+  | [a, b] => do pure (layoutOf (← bitsOf a) (← bitsOf b))
+  | _ => none
+
+def beNat (b : Bytes) : Nat := b.foldl (fun acc x => acc * 256 + x) 0
+
+def beBytes (n : Nat) : Bytes := (leBytes n 8).reverse
+
+def showErr : Err → String
+  | .length a b => s!"err length {a} {b}"
+  | .unknownEventType v => s!"err eventtype {v}"
+  | .noSuchKey k => s!"err nosuchkey {k}"
+  | .crypt => "err crypt"
+  | .deser f => "err deser " ++ f.replace " " "_"
+  | .nonAscii => "err nonascii"
+
+def showConvInfo (c : ConvInfo) : String :=
+  s!"{c.keyId} {bytesHex c.site} {beNat c.ts} {beNat c.eps} {beNat c.sens}"
+
+def showReport (r : PlainReport) : String :=
+  match r.info with
+  | .imp i => s!"imp {bytesHex r.matchKey} {bytesHex r.btt} {i.keyId}"
+  | .conv c => s!"conv {bytesHex r.matchKey} {bytesHex r.btt} {showConvInfo c}"
+
+def showOutcome {α : Type} (f : α → String) : Outcome α → String
+  | .ok a => "ok " ++ f a
+  | .err e => showErr e
+  | .panic t => "panic:" ++ t
+
+def flipBit (r : Bytes) (bit : Nat) : Bytes :=
+  r.mapIdx (fun i b => if i == bit / 8 then b ^^^ (1 <<< (bit % 8)) else b)
+
+/-! toy sealer/AEAD used for the model side of `c10.rt` (the model really runs `process ∘ encrypt`) -/
+def toyTag (k : Nat) (info plain : Bytes) : Bytes :=
+  let h := (info ++ 255 :: plain).foldl (fun acc x => (acc * 131 + x + 7) % 340282366920938463463374607431768211297) (k + 1)
+  leBytes h 16
+
+def toySealer : Sealer Nat where
+  sealFn k info plain r := (leBytes (k + 256 * r) 32, plain ++ toyTag k info plain)
+
+def toyAEAD : AEAD Nat where
+  open' k enc ct info :=
+    let plain := ct.take (ct.length - 16)
+    if ct.length ≥ 16 && enc.length == 32 && enc.head? == some (k % 256) && ct.drop (ct.length - 16) == toyTag k info plain
+    then some plain else none
+
+def rt (L : Layout) (kind : String) (kid : Nat) (reg : Nat → Option Nat) (mk btt site : Bytes)
+    (ts eps sens seed : Nat) : String :=
+  let infoO : Outcome Info :=
+    if kind == "imp" then .ok (.imp { keyId := kid })
+    else (ConvInfo.new kid site (beBytes ts) (beBytes eps) (beBytes sens)).bind (fun c => .ok (.conv c))
+  match infoO with
+  | .err e => showErr e
+  | .panic t => "panic:" ++ t
+  | .ok info =>
+    match reg kid with
+    | none => showErr (.noSuchKey kid)
+    | some k =>
+      let rep : PlainReport := { matchKey := mk, btt, info }
+      let bytes := encrypt toySealer k kid rep seed (seed + 1)
+      let out := process toyAEAD reg L bytes
+      let same := match out with
+        | .ok r => r == rep
+        | _ => false
+      let tail := bytes.drop (1 + keyIdOff L info.kind)
+      s!"{showOutcome showReport out} len={bytes.length} declared={encryptedLen L info} delim=1 evt={bytes.headD 0} tail={bytesHex tail} same={boolStr same}"
+
+def parseChunks (s : String) : Option Bytes :=
+  if s = "-" then some [] else
+  ((s.splitOn ",").mapM (fun c => if c = "e" then some [] else parseHexBytes c)).map List.flatten
+
+def streamResp (A : AEAD Nat) (reg : Nat → Option Nat) (L : Layout) (body : Bytes) : String :=
+  match processStream A reg L body with
+  | none => "err"
+  | some outs =>
+    match outs.find? (·.isPanic) with
+    | some (.panic t) => "panic:" ++ t
+    | _ =>
+      if outs.all (fun o => match o with | .ok _ => true | _ => false) then
+        let reps := outs.filterMap (fun o => match o with | .ok r => some (showReport r) | _ => none)
+        String.intercalate " | " (s!"ok {reps.length}" :: reps)
+      else "err"
+
+def infoResp (kind : String) (b : Bytes) : Option String :=
+  match kind with
+  | "imp" => some (showOutcome (fun (i : ImpInfo) => s!"{i.keyId} tobytes={bytesHex i.toBytes} enc={bytesHex i.toEncBytes}") (ImpInfo.fromBytes b))
+  | "conv" => some (showOutcome (fun (c : ConvInfo) => s!"{showConvInfo c} tobytes={bytesHex c.toBytes} enc={bytesHex c.toEncBytes}") (ConvInfo.fromBytes b))
+  | _ => none
+
+def infoNewResp (kid : Nat) (site : Bytes) (ts eps sens : Nat) : String :=
+  match ConvInfo.new kid site (beBytes ts) (beBytes eps) (beBytes sens) with
+  | .ok c =>
+    let back := match ConvInfo.fromBytes c.toBytes with
+      | .ok c2 => if c2 == c then "same" else "diff " ++ showConvInfo c2
+      | .err e => showErr e
+      | .panic t => "panic:" ++ t
+    s!"ok bytelen={c.byteLen} tobytes={bytesHex c.toBytes} enc={bytesHex c.toEncBytes} back={back}"
+  | .err e => showErr e
+  | .panic t => "panic:" ++ t
 
 /-- `some response` if the request belongs to this property, else `none`. -/
-def handle (_toks : List String) : Option String := none
+def handle (toks : List String) : Option String :=
+  match toks with
+  | ["c10.parse", ty, reg, log, rec] => some <| (do
+      let L ← parseTy ty
+      let A := tableAEAD (← parseLog log)
+      pure (showOutcome showReport (process A (← parseReg reg) L (← parseHexBytes rec)))).getD "bad-request"
+  | ["c10.flip", ty, reg, log, rec, bit] => some <| (do
+      let L ← parseTy ty
+      let A := tableAEAD (← parseLog log)
+      pure (showOutcome showReport (process A (← parseReg reg) L (flipBit (← parseHexBytes rec) (← bit.toNat?))))).getD "bad-request"
+  | ["c10.rt", ty, kind, kid, reg, mk, btt, site, ts, eps, sens, seed] => some <| (do
+      pure (rt (← parseTy ty) kind (← kid.toNat?) (← parseReg reg) (← parseHexBytes mk) (← parseHexBytes btt)
+        (← parseHexBytes site) (← ts.toNat?) (← eps.toNat?) (← sens.toNat?) (← seed.toNat?))).getD "bad-request"
+  | ["c10.info", kind, b] => some <| (do infoResp kind (← parseHexBytes b)).getD "bad-request"
+  | ["c10.infonew", kid, site, ts, eps, sens] => some <| (do
+      pure (infoNewResp (← kid.toNat?) (← parseHexBytes site) (← ts.toNat?) (← eps.toNat?) (← sens.toNat?))).getD "bad-request"
+  | ["c10.stream", ty, reg, log, chunks] => some <| (do
+      let L ← parseTy ty
+      let A := tableAEAD (← parseLog log)
+      pure (streamResp A (← parseReg reg) L (← parseChunks chunks))).getD "bad-request"
+  | t :: _ => if t.startsWith "c10." then some "bad-request" else none
+  | _ => none
 
-/-- Property oracle on (request, implementation response): `some "holds"`, `some "fails <why>"`, or `none`. -/
-def oracle (_toks : List String) (_impl : String) : Option String := none
+/-! ## Spec-side oracle
+
+Independent of `ReportWire`: works on the request text and the implementation's response only.
+* never `panic`/`timeout`;
+* `c10.parse`: an `ok` answer is allowed only if the record is *literally* event byte ‖ enc₁ ‖ ct₁ ‖ enc₂ ‖ ct₂ ‖
+  key id ‖ info for two logged sealings made to the key the registry holds under that key id, under the
+  HPKE info string spelled by the returned metadata, with the returned plaintexts;
+* `c10.flip`: must be an error;
+* `c10.rt`: the original shares and metadata come back (or the documented refusal);
+* `c10.info`: `from_bytes` followed by `to_bytes` reproduces the input. -/
+
+def crashed (impl : String) : Bool := impl.startsWith "panic" || impl.startsWith "timeout"
+
+def verdict (b : Bool) (why : String) : String := if b then "holds" else "fails " ++ why
+
+def kv (toks : List String) (key : String) : Option String :=
+  (toks.find? (·.startsWith (key ++ "="))).map (fun t => (t.drop (key.length + 1)).toString)
+
+/-- HPKE info string spelled out from the fields the implementation returned. -/
+def specInfoEnc (fields : List String) : Option (Bytes × Bytes × Nat) :=
+  match fields with
+  | ["imp", _, _, kid] => do
+      let k ← kid.toNat?
+      pure (Report.domain ++ Report.helperOrigin ++ [k], [k], 0)
+  | ["conv", _, _, kid, site, ts, eps, sens] => do
+      let k ← kid.toNat?
+      let s ← parseHexBytes site
+      let t := k :: (beBytes (← ts.toNat?) ++ beBytes (← eps.toNat?) ++ beBytes (← sens.toNat?))
+      pure (Report.domain ++ Report.helperOrigin ++ s ++ t, s ++ 0 :: t, 1)
+  | _ => none
+
+def parseOracle (reg : String) (log : String) (rec : Bytes) (impl : String) : Option Bool := do
+  if crashed impl then return false
+  if impl.startsWith "err" then return true
+  let toks := impl.splitOn " "
+  match toks with
+  | "ok" :: fields =>
+    let (ie, wire, evt) ← specInfoEnc fields
+    let mk ← parseHexBytes (← fields[1]?)
+    let btt ← parseHexBytes (← fields[2]?)
+    let entries ← parseLog log
+    let regl ← parseNatList reg
+    pure (entries.any (fun e1 => entries.any (fun e2 =>
+      e1.info == ie && e2.info == ie && e1.plain == mk && e2.plain == btt && e1.k == e2.k &&
+      (List.range 256).any (fun kid => regl[kid]? == some e1.k &&
+        rec == evt :: (e1.enc ++ e1.ct ++ e2.enc ++ e2.ct ++ [kid] ++ wire)))))
+  | _ => none
+
+def rtOracle (kind : String) (kid : Nat) (reg : String) (mk btt site : String) (ts eps sens : String)
+    (impl : String) : Option Bool := do
+  if crashed impl then return false
+  let regl ← parseNatList reg
+  let siteB ← parseHexBytes site
+  if kind == "conv" && (siteB.any (· ≥ 128) || siteB.contains 0) then return impl == "err nonascii"
+  if regl[kid]?.isNone then return impl == s!"err nosuchkey {kid}"
+  let toks := impl.splitOn " "
+  let want := if kind == "imp" then ["ok", "imp", mk, btt, toString kid]
+    else ["ok", "conv", mk, btt, toString kid, site, ts, eps, sens]
+  let n := want.length
+  pure (toks.take n == want && kv toks "same" == some "1" && kv toks "delim" == some "1"
+    && kv toks "len" == kv toks "declared" && kv toks "evt" == some (if kind == "imp" then "0" else "1"))
+
+def infoOracle (b : String) (impl : String) : Option Bool := do
+  if crashed impl then return false
+  if impl.startsWith "err" then return true
+  pure (kv (impl.splitOn " ") "tobytes" == some b)
+
+def infoNewOracle (site : String) (impl : String) : Option Bool := do
+  if crashed impl then return false
+  let s ← parseHexBytes site
+  if s.any (· ≥ 128) || s.contains 0 then return impl == "err nonascii"
+  pure (impl.startsWith "ok " && kv (impl.splitOn " ") "back" == some "same")
+
+/-- Property oracle on (request, implementation response). -/
+def oracle (toks : List String) (impl : String) : Option String :=
+  match toks with
+  | ["c10.parse", _, reg, log, rec] =>
+      match (do parseOracle reg log (← parseHexBytes rec) impl) with
+      | some b => some (verdict b "a helper crashed on this record, or accepted a record that is not the concatenation of honestly sealed parts")
+      | none => some "unknown"
+  | ["c10.flip", _, _, _, _, _] =>
+      some (verdict (impl.startsWith "err") "a record with one flipped bit was not rejected with an error")
+  | ["c10.rt", _, kind, kid, reg, mk, btt, site, ts, eps, sens, _] =>
+      match (do rtOracle kind (← kid.toNat?) reg mk btt site ts eps sens impl) with
+      | some b => some (verdict b "encrypt→decrypt did not return the original shares and metadata")
+      | none => some "unknown"
+  | ["c10.info", _, b] =>
+      match infoOracle b impl with
+      | some b => some (verdict b "info parser crashed or accepted bytes that it does not serialize back to")
+      | none => some "unknown"
+  | ["c10.infonew", _, site, _, _, _] =>
+      match infoNewOracle site impl with
+      | some b => some (verdict b "accepted metadata does not survive to_bytes→from_bytes (or a clean site was refused)")
+      | none => some "unknown"
+  | ["c10.stream", _, _, _, _] =>
+      some (verdict (!crashed impl) "the input path crashed or hung on a malformed length-delimited body")
+  | t :: _ => if t.startsWith "c10." then some "unknown" else none
+  | _ => none
 
 end IpaVerif.Driver.C10
